@@ -669,86 +669,81 @@ def atoms(focus, pos):
 
 
 def enumerate_cases(thorough, rng):
-    # ---- E1 pre-chain, env on, parse_args
-    ec_opts = [None] + [(form, g) for g in (1, 2, 3) for form in ("str", "file")] + [("str", 4)]
+    quick = not thorough
+    ec_all = [None] + [(form, g) for g in (1, 2, 3) for form in ("str", "file")] + [("str", 4)]
+    ec_few = [None, ("str", 1), ("file", 2), ("str", 3), ("str", 4)]
+
+    def ec_of(ec):
+        return (ec[0], content(3, ec[1])) if ec else None
+
+    # ---- E1 pre-chain, env on, parse_args.  quick: without the layout of three direct files; 5 of the 8 env configs; the argv tail only with <= 2 files
     for name, nd, build in layouts(thorough):
+        if quick and name == "3":
+            continue
         digit_range = (0, 1, 2, 3, 4) if (thorough and nd <= 2) else (1, 2, 3)
         for g in itertools.product(digit_range, repeat=nd):
-            for n_ec, ec in enumerate(ec_opts):
+            for ec in (ec_few if quick else ec_all):
                 for e in (0, 1, 2):
-                    for n_tail, tail in enumerate(([], TAIL)):
-                        if nd == 3 and not thorough and (sum(g) + n_ec + e) % 2 != n_tail:
-                            continue  # quick bound: three-file layouts alternate between no argv and the argv tail
-                        if name in ("m1", "e1", "w1", "~2", "gq", "1") and tail and ec and ec[0] == "file":
-                            continue
-                        yield mk(dcf=build(g), envcfg=(ec[0], content(3, ec[1])) if ec else None, envvars=envvars_of(e), final=tail)
-    # ---- E2 argv sequences per focus key on two pre-chains
-    # the full pre-chain: two default config files, an env config that leaves the list keys alone, env variables for a, l, d
+                    yield mk(dcf=build(g), envcfg=ec_of(ec), envvars=envvars_of(e))
+                    if thorough or nd <= 2:
+                        yield mk(dcf=build(g), envcfg=ec_of(ec), envvars=envvars_of(e), final=TAIL)
+    # ---- E2 argv sequences per focus key, on an empty pre-chain and (shorter sequences) on a full one
+    # the full pre-chain: two default config files, an env config that leaves the list keys alone, env variables for n.x, n.l, n.d
     full_pre = dict(dcf=[("file", "abs", content(0, 1)), ("file", "abs", content(1, 2))],
                     envcfg=("str", [x for x in content(3, 4) if KIND[x[0]] != "list"] + [("d", "=", val(3, "d", "="))]), envvars=envvars_of(2)[:3])
-    lens = {"l": 6, "n.l": 5, "d": 6, "n.d": 5, "a": 6, "n.x": 6} if thorough else {"l": 4, "n.l": 3, "d": 4, "n.d": 3, "a": 4, "n.x": 4}
+    lens = {"l": 6, "n.l": 5, "d": 6, "n.d": 5, "a": 6, "n.x": 6} if thorough else {"l": 4, "n.l": 3, "d": 3, "n.d": 3, "a": 3, "n.x": 3}
     for focus in KEYS:
         for n in range(1, lens[focus] + 1):
             per_pos = [atoms(focus, 5 + i) for i in range(n)]
-            if thorough and n >= 5:
-                # bound: at lengths 5 and 6 only the first four atoms of the focus key
-                per_pos = [a[:4] for a in per_pos]
-            if not thorough and n == 4:
-                # quick bound: at length 4 only the first 5 (list) / 4 (dict) / 3 (scalar) atoms of the focus key
-                per_pos = [a[: {"list": 5, "dict": 4, "scalar": 3}[KIND[focus]]] for a in per_pos]
+            if (thorough and n >= 5) or (quick and n == 4):
+                per_pos = [a[:4] for a in per_pos]  # bound: at these lengths only the first four atoms of the focus key
             for seq in itertools.product(*per_pos):
                 yield mk(envmode="off", final=seq)
-                if n <= lens[focus] - 1:
+                if n <= (lens[focus] - 1 if thorough else 2):
                     yield mk(final=seq, **full_pre)
-    # ---- E3 the other parse methods
+    # ---- E3 the other parse methods.  quick: the input content is tied to the chain when there are >= 2 files; parse_path with <= 1 file;
+    #      the glob layout with parse_string only
     for method in ("string", "path", "object"):
         for name, nd, build in layouts(False):
-            if not thorough and (name in ("3", "g1", "m1") or method == "path" and nd >= 2):
-                continue  # quick bound: parse_path (= parse_string on the file content) only with <= 1 default config file
+            if quick and (name in ("3", "g1", "m1") or (method == "path" and nd >= 2) or (method == "object" and nd == 3)):
+                continue
             for g in itertools.product((1, 2, 3), repeat=nd):
-                for ec in (None, ("str", 1), ("file", 2), ("str", 3), ("file", 4)):
+                for ec in ((None, ("str", 1), ("file", 2), ("str", 4)) if quick else ec_few + [("file", 4)]):
                     for e in (0, 1, 2):
                         for fg in (1, 2, 3):
-                            if not thorough and (nd == 3 and (fg + e + (ec[1] if ec else 0) + sum(g)) % 3 or nd == 2 and (fg + e + sum(g)) % 2):
-                                continue  # quick bound: a third of the three-file chains, half of the two-file chains
-                            yield mk(method=method, dcf=build(g), envcfg=(ec[0], content(3, ec[1])) if ec else None, envvars=envvars_of(e),
-                                     final=content(5, fg))
+                            if quick and nd >= 2 and fg != 1 + (sum(g) + e) % 3:
+                                continue
+                            yield mk(method=method, dcf=build(g), envcfg=ec_of(ec), envvars=envvars_of(e), final=content(5, fg))
+    # parse_env, reading os.environ or an explicit dict, on parsers with default_env off and on
     for envdict in (False, True):
         for envmode in ("off", "on"):
             for name, nd, build in layouts(False):
-                if nd == 3 and name != "1g":
+                if (nd == 3 and name != "1g") or (quick and (envmode == "on" and nd >= 2 or envdict and nd == 3)):
                     continue
                 for g in itertools.product((1, 2, 3), repeat=nd):
-                    for ec in ec_opts:
-                        for e in (0, 1, 2):
-                            if not thorough and (envmode == "on" and nd >= 2 or nd == 3 and (sum(g) + e) % 3 or nd == 2 and (sum(g) + e + envdict) % 2):
-                                continue
-                            yield mk(method="env", envmode=envmode, dcf=build(g), envcfg=(ec[0], content(3, ec[1])) if ec else None,
-                                     envvars=envvars_of(e), envdict=envdict)
+                    for ec in (ec_few if quick else ec_all):
+                        for e in ((0, 1) if quick and nd == 3 else (0, 1, 2)):
+                            yield mk(method="env", envmode=envmode, dcf=build(g), envcfg=ec_of(ec), envvars=envvars_of(e), envdict=envdict)
     # ---- E4 env modes and variable spelling
     for envmode in ("off", "calloff", "osvar", "call", "on"):
         for prefix in ("APP", "none", "prog"):
-            if envmode == "on" and prefix == "APP":
-                continue
-            if not thorough and prefix != "APP" and envmode in ("calloff", "call"):
+            if (envmode == "on" and prefix == "APP") or (quick and prefix != "APP" and envmode not in ("on", "osvar")):
                 continue
             for method in ("args", "string", "object", "path"):
-                if not thorough and prefix != "APP" and method in ("object", "path"):
+                if quick and (method == "path" or method == "object" and prefix != "APP"):
                     continue
-                for g in itertools.product((1, 2, 3), repeat=2):
-                    for ec in (None, ("str", 1), ("file", 2), ("str", 3), ("file", 4)):
+                for g in (((1, 2), (2, 3), (3, 1), (2, 2)) if quick else itertools.product((1, 2, 3), repeat=2)):
+                    for ec in (None, ("str", 1), ("file", 2), ("str", 3)) + ((("file", 4),) if thorough else ()):
                         for e in (0, 1, 2):
-                            if not thorough and (g[0] + g[1] + e) % 3 != (0 if method != "args" else 1) and (method != "args" or prefix != "APP"):
-                                continue
                             final = TAIL[: 2 + e] if method == "args" else content(5, 1 + (g[0] + e) % 3)
                             yield mk(method=method, envmode=envmode, prefix=prefix, dcf=[("file", "abs", content(0, g[0])), ("file", "abs", content(1, g[1]))],
-                                     envcfg=(ec[0], content(3, ec[1])) if ec else None, envvars=envvars_of(e), final=final)
+                                     envcfg=ec_of(ec), envvars=envvars_of(e), final=final)
     # one variable at a time, every key, every prefix
     for prefix in ("APP", "none", "prog"):
         for k in KEYS:
             for ec in (None, ("str", 1), ("str", 2)):
-                yield mk(prefix=prefix, envcfg=(ec[0], content(3, ec[1])) if ec else None, envvars=[(k, val(4, k, "="))])
-                yield mk(prefix=prefix, envcfg=(ec[0], content(3, ec[1])) if ec else None, envvars=[(k, val(4, k, "="))], final=TAIL)
+                yield mk(prefix=prefix, envcfg=ec_of(ec), envvars=[(k, val(4, k, "="))])
+                yield mk(prefix=prefix, envcfg=ec_of(ec), envvars=[(k, val(4, k, "="))], final=TAIL)
     # ---- E5 seeded random chains: every source picks an independent operation per key
     if thorough:
         def rcontent(pos):
@@ -822,7 +817,7 @@ def main():
             collect(h, results)
     else:
         collect(h, map(run_chunk, chunks))
-    lens = "6 (first 4 atoms at lengths 5-6)" if h.thorough else "4 (3 for the nested list/dict key; first 5/4/3 atoms at length 4)"
+    lens = "6 (first 4 atoms at lengths 5-6)" if h.thorough else "3 (4 with the first 4 atoms for the flat list key)"
     sys.exit(h.finish(exhaustive=True, bound="0-3 default config files in %d layouts (direct, glob with creation order != sorted order, missing%s) x 3 contents per file; "
                       "env config {none, string, file} x 3 contents; env variables {none, 2 sets, each key alone}; every sequence of <= %s command line items over the "
                       "atoms of one focus key (option, '+' scalar, '+' list, dict item, config file, config string) on an empty and a full pre-chain; parse_args, "
